@@ -82,9 +82,9 @@ macro_rules! k7 {
         });
     };
 }
-//@ k7_unary_null props=C01,C03 tier=quick expect=pass fns=exists_operation,element_empty_operation,is_string_operation,is_list_operation,is_struct_operation,is_int_operation,is_float_operation,is_bool_operation,is_null_operation,not_operation,inverse_operation :: unary leaf kernel on a Null value (Resolved or Literal, symbolic): truth table of the 9 unary operators + negation laws (!op, prefix not, double negation; errors never inverted into success)
+//@ k7_unary_null props=C01:t,C03 tier=quick expect=pass fns=exists_operation,element_empty_operation,is_string_operation,is_list_operation,is_struct_operation,is_int_operation,is_float_operation,is_bool_operation,is_null_operation,not_operation,inverse_operation :: unary leaf kernel on a Null value (Resolved or Literal, symbolic): truth table of the 9 unary operators + negation laws (!op, prefix not, double negation; errors never inverted into success)
 k7!(k7_unary_null, V_NULL);
-//@ k7_unary_int props=C01,C03,C08 tier=quick expect=pass fns=exists_operation,element_empty_operation,is_int_operation,not_operation,inverse_operation :: unary leaf kernel on an Int (any i64): `empty` on a number is an evaluation error, also under every negation
+//@ k7_unary_int props=C01,C03,C08:t tier=quick expect=pass fns=exists_operation,element_empty_operation,is_int_operation,not_operation,inverse_operation :: unary leaf kernel on an Int (any i64): `empty` on a number is an evaluation error, also under every negation
 k7!(k7_unary_int, V_INT);
 //@ k7_unary_float props=C01,C03 tier=thorough expect=pass fns=exists_operation,element_empty_operation,is_float_operation,not_operation,inverse_operation :: unary leaf kernel on a Float (any f64)
 k7!(k7_unary_float, V_FLOAT);
@@ -92,9 +92,9 @@ k7!(k7_unary_float, V_FLOAT);
 k7!(k7_unary_bool, V_BOOL);
 //@ k7_unary_str_empty props=C01,C03 tier=quick expect=pass fns=exists_operation,element_empty_operation,is_string_operation,not_operation,inverse_operation :: unary leaf kernel on the empty string: `empty` holds
 k7!(k7_unary_str_empty, V_STR_EMPTY);
-//@ k7_unary_str_x props=C01,C03 tier=quick expect=pass fns=exists_operation,element_empty_operation,is_string_operation,not_operation,inverse_operation :: unary leaf kernel on a 1-char string (symbolic ASCII char): `empty` does not hold
+//@ k7_unary_str_x props=C01:t,C03 tier=quick expect=pass fns=exists_operation,element_empty_operation,is_string_operation,not_operation,inverse_operation :: unary leaf kernel on a 1-char string (symbolic ASCII char): `empty` does not hold
 k7!(k7_unary_str_x, V_STR_X);
-//@ k7_unary_list_empty props=C01,C03 tier=quick expect=pass fns=exists_operation,element_empty_operation,is_list_operation,not_operation,inverse_operation :: unary leaf kernel on an empty list
+//@ k7_unary_list_empty props=C01:t,C03 tier=quick expect=pass fns=exists_operation,element_empty_operation,is_list_operation,not_operation,inverse_operation :: unary leaf kernel on an empty list
 k7!(k7_unary_list_empty, V_LIST_EMPTY);
 //@ k7_unary_list_1 props=C01,C03 tier=thorough expect=pass fns=exists_operation,element_empty_operation,is_list_operation,not_operation,inverse_operation :: unary leaf kernel on a 1-element list
 k7!(k7_unary_list_1, V_LIST_1);
